@@ -16,13 +16,20 @@ limitations under the License.
 
 package fileutils
 
-import "os"
+import (
+	"os"
+
+	"github.com/codenotary/immudb/embedded/simhook"
+)
 
 func SyncDir(paths ...string) error {
 	for _, path := range paths {
 		err := syncDir(path)
 		if err != nil {
 			return err
+		}
+		if simhook.Enabled {
+			simhook.IOSyncDir(path)
 		}
 	}
 	return nil
